@@ -225,7 +225,7 @@ func TestC09(t *testing.T) {
 		nItems := 600 + r.Intn(vh.Pick(400, 4400))
 
 		// streamwriter.Writer and deprecated frame.Writer.WriteMessage
-		for _, api := range []string{"streamwriter", "framewriter", "readwriter"} {
+		for _, api := range []string{"streamwriter", "framewriter", "readwriter", "newwriter", "newreadwriter"} {
 			rw := &recWriter{}
 			var write func(m message.Message) error
 			if api == "streamwriter" {
@@ -245,6 +245,26 @@ func TestC09(t *testing.T) {
 					continue
 				}
 				write = fw.WriteMessage
+			} else if api == "newwriter" {
+				// the deprecated constructor
+				fw, err := frame.NewWriter(frame.WriterConf{Writer: rw, DialectRW: genv.drw, OutVersion: frame.WriterOutVersion(conf.version), OutSystemID: conf.sys,
+					OutComponentID: conf.comp, OutKey: key, OutSignatureLinkID: conf.link})
+				if err != nil {
+					rep.Violation("api=newwriter what=init:valid", "a valid configuration was refused: "+err.Error(), conf.String())
+					continue
+				}
+				write = fw.WriteMessage
+			} else if api == "newreadwriter" {
+				frw, err := frame.NewReadWriter(frame.ReadWriterConf{ReadWriter: struct {
+					io.Reader
+					io.Writer
+				}{bytes.NewReader(nil), rw}, DialectRW: genv.drw, OutVersion: frame.WriterOutVersion(conf.version), OutSystemID: conf.sys,
+					OutComponentID: conf.comp, OutKey: key, OutSignatureLinkID: conf.link})
+				if err != nil {
+					rep.Violation("api=newreadwriter what=init:valid", "a valid configuration was refused: "+err.Error(), conf.String())
+					continue
+				}
+				write = frw.WriteMessage
 			} else {
 				// the deprecated message writer of frame.ReadWriter
 				frw := &frame.ReadWriter{ByteReadWriter: struct {
